@@ -34,6 +34,7 @@ type runResult struct {
 	series   []any
 	err      string
 	warnings []string
+	hints    int
 	maxMsg   int
 }
 
@@ -62,7 +63,7 @@ func runProxyReq(w map[string]any, cfg map[string]any, pl *payloads, sseed int64
 		PartialResponseDisabled: disabledFlag,
 	}
 	err := p.Series(req, col)
-	res := runResult{warnings: col.warnings, maxMsg: col.maxMsg(), series: []any{}}
+	res := runResult{warnings: col.warnings, hints: col.hints, maxMsg: col.maxMsg(), series: []any{}}
 	if err != nil {
 		res.err = err.Error()
 	}
@@ -75,7 +76,13 @@ func runProxyReq(w map[string]any, cfg map[string]any, pl *payloads, sseed int64
 // decorate adds the transport-only dimensions the model leaves open: batching of the store
 // streams, precomputed hashes, the schedule seed, the configuration matrix.
 func c03Decorate(c vt.Case, rnd *rand.Rand) vt.Case {
-	for i, sv := range vt.List(c["stores"]) {
+	stores := vt.List(c["stores"])
+	if rnd.Intn(2) == 0 { // both store orders (ties in the loser tree are broken by position)
+		for i, j := 0, len(stores)-1; i < j; i, j = i+1, j-1 {
+			stores[i], stores[j] = stores[j], stores[i]
+		}
+	}
+	for i, sv := range stores {
 		st := vt.Map(sv)
 		st["batch"] = []int{0, 0, 2, 3}[rnd.Intn(4)]
 		for _, fv := range vt.List(st["frames"]) {
@@ -84,6 +91,31 @@ func c03Decorate(c vt.Case, rnd *rand.Rand) vt.Case {
 			}
 		}
 	}
+	// now and then one stream ends with an error after k messages (WARN strategy)
+	if rnd.Intn(4) == 0 {
+		st := vt.Map(stores[rnd.Intn(len(stores))])
+		st["fail"] = map[string]any{"kind": "after", "k": rnd.Intn(len(vt.List(st["frames"])) + 1)}
+		st["batch"] = 0
+	}
+	return c03Finish(c, rnd)
+}
+
+// c03Finish: strategy (ABORT unless the world has warning messages or a breaking stream: then any
+// warning would abort the request), configuration matrix, schedule seed.
+func c03Finish(c vt.Case, rnd *rand.Rand) vt.Case {
+	strategy := "ABORT"
+	for _, sv := range vt.List(c["stores"]) {
+		st := vt.Map(sv)
+		if _, ok := st["fail"]; ok {
+			strategy = "WARN"
+		}
+		for _, fv := range vt.List(st["frames"]) {
+			if vt.Str(vt.Map(fv)["k"]) == "w" {
+				strategy = "WARN"
+			}
+		}
+	}
+	c["strategy"] = strategy
 	c["cfgs"] = c03Configs()
 	c["sseed"] = rnd.Int63n(1 << 40)
 	return c
@@ -91,7 +123,7 @@ func c03Decorate(c vt.Case, rnd *rand.Rand) vt.Case {
 
 // c03Random builds a bigger random world: 1-5 stores, replica labels, series split across
 // frames, chunks (raw and aggregated with up to five sub-chunks) duplicated across stores.
-func c03Random(rnd *rand.Rand) vt.Case {
+func c03Random(rnd *rand.Rand, nonSeries bool) vt.Case {
 	type chunk struct {
 		mint, maxt int
 		f          [6]int
@@ -211,15 +243,34 @@ func c03Random(rnd *rand.Rand) vt.Case {
 		}
 		sort.SliceStable(frames, func(a, b int) bool { return less(frames[a].ls, frames[b].ls) })
 		fl := make([]any, 0, len(frames))
+		// hints / warning messages between and after the series frames of this store
+		hintsP, warnP := 0, 0
+		if nonSeries {
+			hintsP, warnP = []int{0, 0, 3, 8}[rnd.Intn(4)], []int{0, 0, 0, 6}[rnd.Intn(4)]
+		}
 		for _, f := range frames {
 			fl = append(fl, map[string]any{"ls": f.ls, "chunks": f.chunks})
+			if hintsP > 0 && rnd.Intn(hintsP) == 0 {
+				fl = append(fl, map[string]any{"k": "h", "ls": []any{}, "chunks": []any{}})
+			}
+			if warnP > 0 && rnd.Intn(warnP) == 0 {
+				fl = append(fl, map[string]any{"k": "w", "ls": []any{}, "chunks": []any{}})
+			}
 		}
-		stores = append(stores, map[string]any{"strips": strips, "batch": []int{0, 1, 2, 3, 5}[rnd.Intn(5)], "frames": fl})
+		if nonSeries && rnd.Intn(3) == 0 { // trailing hints, as the store gateway sends them
+			fl = append(fl, map[string]any{"k": "h", "ls": []any{}, "chunks": []any{}})
+		}
+		st := map[string]any{"strips": strips, "batch": []int{0, 1, 2, 3, 5}[rnd.Intn(5)], "frames": fl}
+		if nonSeries && rnd.Intn(8) == 0 { // the stream ends with an error after k messages
+			st["fail"] = map[string]any{"kind": "after", "k": rnd.Intn(len(fl) + 1)}
+			st["batch"] = 0
+		}
+		stores = append(stores, st)
 	}
 	if without == nil {
 		without = []int{}
 	}
-	return vt.Case{"stores": stores, "without": without, "cfgs": c03Configs(), "sseed": rnd.Int63n(1 << 40)}
+	return c03Finish(vt.Case{"stores": stores, "without": without}, rnd)
 }
 
 // TestC03 runs every world through the whole configuration matrix on a real ProxyStore and
@@ -233,7 +284,7 @@ func TestC03(t *testing.T) {
 		}
 		n := vt.Pick(300, 1200)
 		for i := 0; i < n; i++ {
-			yield(c03Random(rnd))
+			yield(c03Random(rnd, i%3 != 0))
 		}
 	}
 	vt.Run(t, gen, nil, func(c vt.Case) vt.Event {
@@ -246,8 +297,12 @@ func TestC03(t *testing.T) {
 		var groups []*group
 		byKey := map[string]*group{}
 		for i, cv := range vt.List(c["cfgs"]) {
-			res, _ := runProxy(c, vt.Map(cv), pl, sseed+int64(i)*7919, storepb.PartialResponseStrategy_ABORT, 30*time.Second)
-			kb, _ := json.Marshal([]any{res.series, res.err, len(res.warnings)})
+			strategy := storepb.PartialResponseStrategy_ABORT
+			if vt.Str(c["strategy"]) == "WARN" {
+				strategy = storepb.PartialResponseStrategy_WARN
+			}
+			res, _ := runProxy(c, vt.Map(cv), pl, sseed+int64(i)*7919, strategy, 30*time.Second)
+			kb, _ := json.Marshal([]any{res.series, res.err, len(res.warnings), res.hints})
 			g := byKey[string(kb)]
 			if g == nil {
 				g = &group{res: res}
@@ -258,7 +313,7 @@ func TestC03(t *testing.T) {
 		}
 		outs := make([]any, 0, len(groups))
 		for _, g := range groups {
-			outs = append(outs, map[string]any{"cfgs": g.cfgs, "series": g.res.series, "err": g.res.err, "nwarn": len(g.res.warnings)})
+			outs = append(outs, map[string]any{"cfgs": g.cfgs, "series": g.res.series, "err": g.res.err, "nwarn": len(g.res.warnings), "nhints": g.res.hints})
 		}
 		return vt.Event{"outs": outs}
 	})
